@@ -351,4 +351,37 @@ func EventListShow(inShutDown bool, srep *SimReport, srepOld *SimReport, vm *VM,
 	return result, nil
 }
 
-// TODO: EventListGet to be implemented
+// EventListGet returns the indexes in Reportables to report on this tick because of an event
+func EventListGet(inShutDown bool, srep *SimReport, srepOld *SimReport, vm *VM, oldVm *VM) (SimTickShow, error) {
+	result := make(SimTickShow)
+
+	for event, pointers := range srep.EventGet {
+		switch event.event {
+		case EVENTONEXIT:
+			// Report on shutdown
+			if inShutDown {
+				ipos := pointers[0]
+				result[ipos] = struct{}{}
+			}
+		case EVENTONVALID:
+			// This is a case where we need to unwrap boolean pointers
+			iposv := pointers[1]
+			NewValisRef := (*srep.EventData[iposv]).(*bool)
+			OldValisRef := (*srepOld.EventData[iposv]).(*bool)
+			newValid := *NewValisRef
+			oldValid := *OldValisRef
+			if newValid != oldValid && newValid {
+				ipos := pointers[0]
+				result[ipos] = struct{}{}
+			}
+		case EVENTONCHANGE:
+			// TODO: Finish this
+		case EVENTONRECV:
+			// TODO: Finish this
+		default:
+			return nil, fmt.Errorf("unknown event type %d in EventListGet", event.event)
+		}
+	}
+
+	return result, nil
+}
